@@ -122,5 +122,80 @@ theorem runActsPure_groups (F : Snap) (step : Nat) : ∀ (acts : List Act) (R R'
       refine ⟨?_, ih.2.1, ih.2.2⟩
       rw [ih.1, this, List.length_cons, Nat.mul_succ]; omega
 
+/-! ### the selector constraints of FormulaLifting do not raise the variable count -/
+
+theorem checkLits_bounded (nv : Nat) (ls : List Int) (h : ∀ l ∈ ls, l ≠ 0 ∧ l.natAbs ≤ nv) :
+    checkLits nv ls = .ok nv := by
+  unfold checkLits
+  have h0 : ls.contains 0 = false := by
+    cases hc : ls.contains 0 with
+    | false => rfl
+    | true => exact absurd rfl (h 0 (by simpa using hc)).1
+  simp only [h0, Bool.false_eq_true, if_false]
+  congr 1
+  clear h0
+  induction ls with
+  | nil => rfl
+  | cons a as ih =>
+    simp only [List.foldl_cons]
+    have ha := (h a (by simp)).2
+    rw [Nat.max_eq_left ha]
+    exact ih (fun l hl => h l (by simp [hl]))
+
+/-- unchecked effect: lists that pass the check without raising the count only append their clauses -/
+theorem addLinearAllPure_bounded (op : Op) (k : Int) : ∀ (ls : List (List Int)) (R : Snap),
+    (∀ l ∈ ls, l ≠ [] ∧ ∀ x ∈ l, x ≠ 0 ∧ x.natAbs ≤ R.numvar) →
+    addLinearAllPure op k R ls = .ok { R with clauses := R.clauses ++ ls.flatMap (fun l => Linear.add l op k) }
+  | [], R, _ => by simp [addLinearAllPure]
+  | l :: ls, R, h => by
+    obtain ⟨hne, hb⟩ := h l (by simp)
+    have he : l.isEmpty = false := by cases l <;> simp_all
+    simp only [addLinearAllPure, addLinearPure, he, Bool.false_eq_true, if_false, checkLits_bounded R.numvar l hb]
+    have ih := addLinearAllPure_bounded op k ls
+      { R with clauses := R.clauses ++ Linear.add l op k } (fun l' hl' => h l' (by simp [hl']))
+    rw [ih]
+    simp [List.append_assoc]
+
+theorem mem_rangeStep {a b st y : Nat} (h : y ∈ rangeStep a b st) :
+    ∃ j, y = a + st * j ∧ j < (b - a + st - 1) / st := by
+  simp only [rangeStep, Subst.rangeStep, List.mem_map, List.mem_range] at h
+  obtain ⟨j, hj, rfl⟩ := h
+  exact ⟨j, rfl, hj⟩
+
+/-- every literal of a selector constraint is a variable of the `2·k·N` declared ones -/
+theorem selectorLists_bounded (k N : Nat) (hk : 1 ≤ k) :
+    ∀ l ∈ selectorLists k (2 * k * N), l ≠ [] ∧ ∀ x ∈ l, x ≠ 0 ∧ x.natAbs ≤ 2 * k * N := by
+  intro l hl
+  simp only [selectorLists, List.mem_map] at hl
+  obtain ⟨y, hy, rfl⟩ := hl
+  obtain ⟨j, rfl, hj⟩ := mem_rangeStep hy
+  have hP : 0 < 2 * k := by omega
+  -- (j+1)·2k ≤ 2kN + k - 1, hence j + 1 ≤ N
+  have h1 : (j + 1) * (2 * k) ≤ 2 * k * N + 1 - (k + 1) + 2 * k - 1 :=
+    Nat.le_trans (Nat.mul_le_mul_right _ hj) (Nat.div_mul_le_self _ _)
+  have hjN : j + 1 ≤ N := by
+    apply Decidable.byContradiction
+    intro hc
+    have h2 : (N + 1) * (2 * k) ≤ (j + 1) * (2 * k) := Nat.mul_le_mul_right _ (by omega)
+    have h3 : (N + 1) * (2 * k) = 2 * k * N + 2 * k := by rw [Nat.add_mul, Nat.one_mul, Nat.mul_comm]
+    omega
+  have h4 : 2 * k * (j + 1) ≤ 2 * k * N := Nat.mul_le_mul_left _ hjN
+  have h5 : 2 * k * (j + 1) = 2 * k * j + 2 * k := Nat.mul_succ _ _
+  refine ⟨?_, ?_⟩
+  · have : (List.range k).length ≠ 0 := by simp; omega
+    intro hnil
+    simp [List.map_eq_nil_iff] at hnil
+    omega
+  · intro x hx
+    simp only [List.mem_map, List.mem_range] at hx
+    obtain ⟨i, hi, rfl⟩ := hx
+    refine ⟨by omega, ?_⟩
+    simp only [Int.natAbs_natCast]
+    omega
+
+theorem selectors_eq (k N : Nat) :
+    Subst.selectors k N = (selectorLists k (2 * k * N)).flatMap (fun l => Linear.add l .eq 1) := by
+  simp [Subst.selectors, selectorLists, rangeStep, List.flatMap_map]
+
 end Heap
 end Cnfgen
